@@ -22,13 +22,23 @@ impl Projector {
         }
     }
 
+    // the node under `iter` and its following siblings (a loop over the siblings, not a
+    // recursion: a note can have tens of thousands of blocks in a row)
     fn project_node<'a>(&self, iter: impl NodeIter<'a>) -> Vec<GraphBlock> {
         let mut blocks = vec![];
+        let mut current = Some(iter);
 
-        if iter.node().is_none() {
-            return blocks;
+        while let Some(iter) = current {
+            if iter.node().is_none() {
+                break;
+            }
+            self.project_single(&iter, &mut blocks);
+            current = iter.next();
         }
+        blocks
+    }
 
+    fn project_single<'a>(&self, iter: &impl NodeIter<'a>, blocks: &mut Vec<GraphBlock>) {
         match iter.node().unwrap() {
             Node::Document(_) => {
                 if let Some(child) = iter.child() {
@@ -118,19 +128,23 @@ impl Projector {
                 ));
             }
         }
-        if let Some(next) = iter.next() {
-            blocks.extend(self.with(self.header_level).project_node(next));
-        }
-        blocks
     }
 
     fn project_list_item<'a>(&self, iter: impl NodeIter<'a>) -> Vec<Vec<GraphBlock>> {
         let mut items: Vec<Vec<GraphBlock>> = vec![];
+        let mut current = Some(iter);
 
-        if iter.node().is_none() {
-            return items;
+        while let Some(iter) = current {
+            if iter.node().is_none() {
+                break;
+            }
+            self.project_single_item(&iter, &mut items);
+            current = iter.next();
         }
+        items
+    }
 
+    fn project_single_item<'a>(&self, iter: &impl NodeIter<'a>, items: &mut Vec<Vec<GraphBlock>>) {
         if iter.inlines().is_empty() && iter.child().is_some() {
             // an item without text of its own starts with its first block (code, quote, rule, table)
             items.push(vec![]);
@@ -152,11 +166,5 @@ impl Projector {
         if items.last().map(|item| item.is_empty()).unwrap_or(false) {
             items.pop();
         }
-
-        iter.next()
-            .map(|next| self.with(self.header_level).project_list_item(next))
-            .map(|blocks| items.append(blocks.clone().as_mut()));
-
-        items
     }
 }
